@@ -9,7 +9,8 @@ from __future__ import annotations
 import json
 import sys
 
-from ser import build_graph, exc_class, ser_expr, var
+import ser
+from ser import build_graph, exc_class, num, ser_expr, var
 
 
 def outcome(fn):
@@ -37,6 +38,8 @@ def main():
         for qi, q in enumerate(item["qs"]):
             t, c, topo = q[0], q[1], q[2]
             rest_ancestral = len(q) > 3 and q[3]
+            # every third query: names V<perm(i)> (alphabetical order unrelated to the numbering)
+            ser.set_naming("permuted", len(groups) * 31 + qi) if qi % 3 == 2 else ser.set_naming("V")
             graph = build_graph(g, qi % 3)
             tv, cv, order = frozenset(var(i) for i in t), frozenset(var(i) for i in c), [var(i) for i in topo]
             nodes = [var(i) for i in g["n"]]
@@ -66,7 +69,7 @@ def main():
             if anc != tv:
                 _, out = outcome(lambda: compute_ancestral_set_q_value(ancestral_set=anc, subgraph_variables=tv,
                                                                        subgraph_probability=qt, graph_topo=order))
-                recs.append({"id": rid + ":an", "k": "q", "s": sorted(int(v.name[1:]) for v in anc), "out": out})
+                recs.append({"id": rid + ":an", "k": "q", "s": sorted(num(v) for v in anc), "out": out})
                 # (4) Lemma 4: c-factor of the district of C inside G[anc] from Q[anc]
                 if out["k"] == "expr" and "e" in out:
                     qa = compute_ancestral_set_q_value(ancestral_set=anc, subgraph_variables=tv,
@@ -76,9 +79,11 @@ def main():
                     if tp:
                         _, out = outcome(lambda: compute_c_factor(district=sorted(tp[0], key=str), subgraph_variables=anc,
                                                                   subgraph_probability=qa, graph_topo=order))
-                        recs.append({"id": rid + ":l4", "k": "q", "s": sorted(int(v.name[1:]) for v in tp[0]), "out": out})
+                        recs.append({"id": rid + ":l4", "k": "q", "s": sorted(num(v) for v in tp[0]), "out": out})
+        ser.set_naming("V")
         groups.append({"n": g["n"], "d": g["d"], "b": g["b"], "recs": recs})
     json.dump(groups, open(sys.argv[2], "w"))
 
 
-main()
+if __name__ == "__main__":
+    main()
